@@ -1,5 +1,6 @@
 import ClusterVerif.Spec.C03
 import ClusterVerif.Spec.C03Block
+import ClusterVerif.Model.C03Alloc
 import Driver.Parse
 import Driver.PinParse
 namespace CV.C03
@@ -165,11 +166,71 @@ def answerBlock (ws : List String) : String :=
     | _, _, _, _, _, _, _ => "bad-case block-parse"
   | _ => "bad-case block"
 
+/-! ### pin, re-pin with another name, a holder fails and is vacated (`C03 seq …`) -/
+
+def parseStored (s : String) : Option (Option (List Nat)) :=
+  if s == "none" || s == "err" then some none
+  else if s.startsWith "ok:" then (nats (s.drop 3).toString).map some
+  else none
+
+/-- one allocation decision of the history: the implementation's answer `tok` (`err` / `ok:<list>`) against the
+    relation and the clauses on `i` -/
+def seqStep (i : Input) (tok : String) : Option (List String × Bool) :=
+  if tok == "err" then some (((clauses i .err).filter (fun c => !c.2)).map (·.1), allowed i .err)
+  else match parseStored tok with
+    | some (some l) => some (((clauses i (.ok l)).filter (fun c => !c.2)).map (·.1), allowed i (.ok l))
+    | _ => none
+
+def answerSeq (ws : List String) : String :=
+  if ws.contains "panic" then "propfail call_panicked arm=seq" else
+  match splitArrow ws with
+  | some ([d, rmin, rmax, ps, pri, f, fst], [s1, s2, s3]) =>
+    match bool01 d, rmin.toInt?, rmax.toInt?, listOf parsePeer ps, nats pri, f.toNat?, parseState fst,
+          parseStored s1, parseStored s2, parseStored s3 with
+    | some d, some rmin, some rmax, some peers, some pri, some f, some fst, some st1, some st2, some st3 =>
+      let i0 : Input := { desc := d, rmin := rmin, rmax := rmax, peers := peers, current := [], blacklist := [], priority := pri }
+      if !wf i0 || !positive i0 then "bad-case seq-input" else
+      -- step 1: a new pin
+      match seqStep i0 s1, seqStep (reallocInput i0 (st1.getD []) []) s2 with
+      | some (f1, a1), some (f2, a2) =>
+        -- step 2: re-allocation from the stored pin must keep a stored allocation (allocate_idempotent)
+        let stable := match st1 with | some l => s2 == "ok:" ++ showNats l | none => true
+        let stored2 := match st2 with | some l => some l | none => st1
+        -- step 3: f's metric replaced, vacatePeer(f): re-pin (stored holders current, f excluded, the STORED pin's
+        -- user allocations — none: ProtoMarshal drops them) iff f is allocated
+        let i2 : Input := { i0 with peers := setState peers f fst, priority := [] }
+        let (f3, a3, arm3) := match stored2 with
+          | none => ((if st3 == none then [] else ["untouched_if_not_allocated"]), true, "unpinned")
+          | some l =>
+            if !l.contains f then
+              ((if st3 == some l then [] else ["untouched_if_not_allocated"]), true, "not-holder")
+            else
+              let i3 := reallocInput i2 l [f]
+              if allowed i3 .err then
+                ((if st3 == some l then [] else ["failed_repin_changes_nothing"]), true, "repin-err")
+              else match st3 with
+                | some l3 =>
+                  let moved := !l3.contains f || (l3 == l && decide (i3.rmin ≤ ((healthyCurrent i3).length : Int)))
+                  ((((clauses i3 (.ok l3)).filter (fun c => !c.2)).map (·.1)) ++ (if moved then [] else ["failed_peer_replaced"]),
+                   allowed i3 (.ok l3), if l3.contains f then "repin-keep" else if l3 == l then "repin-same" else "repin-moved")
+                | none => (["pin_lost"], true, "repin")
+        let failed := f1 ++ (if stable then f2 else f2 ++ ["stable_reallocation"]) ++ f3
+        let a := "seq-" ++ (if st1.isSome then "" else "err-") ++ arm3
+        if !failed.isEmpty then "propfail " ++ ",".intercalate failed ++ " arm=" ++ a
+        else if !a1 then "diff arm=" ++ a ++ " step=1 model=" ++ showOut (allocate i0)
+        else if !a2 then "diff arm=" ++ a ++ " step=2 model=" ++ showOut (allocate (reallocInput i0 (st1.getD []) []))
+        else if !a3 then "diff arm=" ++ a ++ " step=3"
+        else "ok arm=" ++ a
+      | _, _ => "bad-case seq-steps"
+    | _, _, _, _, _, _, _, _, _, _ => "bad-case seq-parse"
+  | _ => "bad-case seq"
+
 /-- answer for one case line (tokens after the leading "C03") -/
 def answer (ws : List String) : String :=
   if ws.head? == some "valid" then answerValid ws.tail else
   if ws.head? == some "raw" then answerRaw ws.tail else
   if ws.head? == some "block" then answerBlock ws.tail else
+  if ws.head? == some "seq" then answerSeq ws.tail else
   match parseCase ws with
   | none => "bad-case"
   | some (i, o) =>
